@@ -302,7 +302,7 @@ func TestVerif_C15m(t *testing.T) {
 			w.Count("rule-not-decodable")
 		}
 		if o.Match == "MTrue" || o.Match == "MErr" || o.Match == "MPanic" {
-			w.NonTrivial(vh.Sig(c.Feature, fmt.Sprint(c.Obj), o.Match))
+			w.NonTrivial(vh.Sig(c.Feature, c.PFeature, fmt.Sprint(c.Parent), fmt.Sprint(c.Obj), o.Match))
 		}
 	}
 	if err := w.Close(nil); err != nil {
